@@ -43,6 +43,7 @@ func commonSweeps(tier string) []sweep {
 		um.Segs = append(um.Segs, "v1.0.1", "archive")
 	}
 	out = append(out, sweep{"P2m", rm.Curly, pairs(pathAtoms(um)), crossReqs(um.Paths(), um.QMethods, rs.PathSweepHeaders[:1], false)})
+	out = append(out, wideSweep(rm.Curly))
 	hu := rs.QuickHeaders()
 	if tier == "thorough" {
 		hu = rs.ThoroughHeaders()
